@@ -39,6 +39,13 @@ func genC08(t *rapid.T) c08Case {
 		// and Gradient2 cap every path, so they are checked above the ceiling as well.
 		c.Cfg.Initial = c.Cfg.Max
 	}
+	if c.Cfg.Algo == "vegas" && rapid.IntRange(0, 3).Draw(t, "customNoLoad") == 0 {
+		// a caller-supplied baseline measurement with the meaning of the default one (the caller's own minimum, or a
+		// minimum behind a type of the caller's). Other measurements (latest value, averages, percentiles) are outside
+		// the claim: Vegas adopts a sample as the new baseline when it lies below the *reported* baseline, and with a
+		// baseline that is not a minimum the pair can straddle that value in ways the reported integer does not show
+		c.Cfg.NoLoad = rapid.SampledFrom([]string{"minimum", "minimum-wrapped"}).Draw(t, "noload")
+	}
 	if c.Cfg.Algo == "gradient2" && c.Cfg.LongWindow < 1 {
 		c.Cfg.LongWindow = 1
 	}
